@@ -4,6 +4,7 @@ go 1.21
 
 require (
 	github.com/anishathalye/porcupine v1.3.0
+	github.com/sirupsen/logrus v1.4.2
 	github.com/taskctl/taskctl v0.0.0
 )
 
@@ -13,7 +14,6 @@ require (
 	github.com/logrusorgru/aurora v0.0.0-20191017060258-dc85c304c434 // indirect
 	github.com/mattn/go-colorable v0.1.4 // indirect
 	github.com/mattn/go-isatty v0.0.10 // indirect
-	github.com/sirupsen/logrus v1.4.2 // indirect
 	golang.org/x/sync v0.0.0-20190911185100-cd5d95a43a6e // indirect
 	golang.org/x/sys v0.0.0-20200217220822-9197077df867 // indirect
 	golang.org/x/term v0.0.0-20191110171634-ad39bd3f0407 // indirect
